@@ -28,6 +28,9 @@ type Opts struct {
 	// NonGreedy: repetitions may be non-greedy (x*?, x+?), and some rules have the shape
 	// "body*? terminator". Only for checks whose oracle does not need the non-greedy semantics.
 	NonGreedy bool
+	// RepeatPop: a rule may carry @pop_mode twice or three times (the stack can then run empty,
+	// which is unspecified: only for checks that stop comparing there, or work on tables).
+	RepeatPop bool
 }
 
 func ri(t *rapid.T, lo, hi int, l string) int { return rapid.IntRange(lo, hi).Draw(t, l) }
@@ -255,6 +258,16 @@ func GenSpec(t *rapid.T, o Opts) *Spec {
 					mact = append(mact, Action{Kind: "pop"}, Action{Kind: "push", Arg: s.Modes[ri(t, 0, nModes, "pm")].Name})
 				case roll == 5:
 					mact = append(mact, Action{Kind: "push", Arg: s.Modes[ri(t, 0, nModes, "pm")].Name}, Action{Kind: "push", Arg: s.Modes[ri(t, 0, nModes, "pm2")].Name})
+				case roll == 6 && ri(t, 0, 1, "twice") == 0:
+					// the same mode action twice (mode actions are not idempotent)
+					a := Action{Kind: "push", Arg: s.Modes[ri(t, 0, nModes, "pm")].Name}
+					if o.RepeatPop && m.Name != "" && rapid.Bool().Draw(t, "poptwice") {
+						a = Action{Kind: "pop"}
+					}
+					mact = append(mact, a, a)
+					if ri(t, 0, 2, "thrice") == 0 {
+						mact = append(mact, a)
+					}
 				}
 				// every named mode needs a way out: its last rule pops
 				if m.Name != "" && i == len(m.Rules)-1 && len(mact) == 0 {
